@@ -186,3 +186,16 @@ M("c16-error-keeps-payload", "C16", "break", (V, '            payload=b"",\n    
 M("c16-swap-checks", "C16", "break",
   (V, "        if someip_message.service_id != self.service_id:\n            self.log.warning(\"received message for unknown service: %r\", someip_message)\n            self.send_error_response(\n                someip_message, addr, header.SOMEIPReturnCode.E_UNKNOWN_SERVICE\n            )\n            return\n", ""),
   (V, "        method = self.methods.get(someip_message.method_id)\n", "        if someip_message.service_id != self.service_id:\n            self.send_error_response(\n                someip_message, addr, header.SOMEIPReturnCode.E_UNKNOWN_SERVICE\n            )\n            return\n        method = self.methods.get(someip_message.method_id)\n"))
+
+# ---------------------------------------------------------------- C17
+M("c17-method-id-and", "C17", "break", (V, "method_id=0x8000 | event_id,", "method_id=0x8000 & event_id,"))
+M("c17-twin-method-id-plus", "C17", "benign", (V, "method_id=0x8000 | event_id,", "method_id=0x8000 + event_id,"))
+M("c17-has-clients-never-cleared", "C17", "break", (V, "        if not self.subscribed_endpoints:\n            self.has_clients.clear()", "        pass"))
+M("c17-accepts-many-endpoints", "C17", "break", (V, "            if len(subscription.endpoints) != 1:", "            if len(subscription.endpoints) < 1:"))
+M("c17-interface-version-minor", "C17", "break", (V, "                interface_version=self.service.version_major,", "                interface_version=self.service.version_minor,"))
+M("c17-only-first-subscriber", "C17", "break", (V, "                for ep in self.subscribed_endpoints", "                for ep in list(self.subscribed_endpoints)[:1]"))
+M("c17-round-without-clients", "C17", "break", (V, "        if not self.has_clients.is_set():\n            return", "        pass"))
+M("c17-initial-notification-to-all", "C17", "break", (V, '            self._notify_single(endpoint, events=self.values.keys(), label="initial")', '            self._notify_all(events=self.values.keys(), label="initial")'))
+M("c17-narrow-except", "C17", "break", (V, "        except Exception as exc:\n            self.log.exception(\n                \"client_subscribed from %r: %s failed\", source, subscription\n            )\n            raise sd.NakSubscription from exc", "        except sd.NakSubscription:\n            raise"))
+M("c17-only-last-event", "C17", "break", (V, "            msgbuf += hdr.build()", "            msgbuf = hdr.build()"))
+M("c17-session-key-mismatch", "C17,C08", "break", (V, "assign_outgoing(addr)", "assign_outgoing(endpoint)"))
